@@ -476,3 +476,65 @@
         std::mem::forget(g);
         std::mem::forget(m);
     }
+
+// @h id=H10.p prop=C10,C04,C02 tier=quick cap=300 mem=12 unwind=4 bounds="one step of the run-length builder from an ARBITRARY last entry (any id, offset, length, run length 1..2^32-2, id + run length inside u64) and an arbitrary next tile (any id above the last run, any offset, any length >= 1): full value domain"
+    /// push_entry extends the last run exactly when the tile is the next id AND has the same (offset, length); otherwise it starts a new entry with run length 1 - so adjacent entries are never mergeable and no tile is attributed to another tile's content
+    #[kani::proof]
+    fn h10_p_push_entry_step() {
+        let lid: u64 = kani::any();
+        let loff: u64 = kani::any();
+        let llen: u32 = kani::any();
+        let lrun: u32 = kani::any();
+        let id: u64 = kani::any();
+        let off: u64 = kani::any();
+        let len: u32 = kani::any();
+        kani::assume(llen >= 1 && len >= 1 && lrun >= 1 && lrun < u32::MAX);
+        kani::assume(lid <= u64::MAX - lrun as u64);
+        kani::assume(id >= lid + lrun as u64);            // ids arrive sorted and distinct
+        let mut entries = Vec::with_capacity(2);
+        entries.push(Entry { tile_id: lid, offset: loff, length: llen, run_length: lrun });
+        TM::push_entry(&mut entries, id, off, len);
+        let extend = id == lid + lrun as u64 && off == loff && len == llen;
+        if extend {
+            assert!(entries.len() == 1);
+            let e = &entries[0];
+            assert!(e.tile_id == lid && e.offset == loff && e.length == llen && e.run_length == lrun + 1);
+        } else {
+            assert!(entries.len() == 2);
+            let e = &entries[0];
+            let f = &entries[1];
+            assert!(e.tile_id == lid && e.offset == loff && e.length == llen && e.run_length == lrun);
+            assert!(f.tile_id == id && f.offset == off && f.length == len && f.run_length == 1);
+        }
+        kani::cover!(extend && lrun == 65535);
+        kani::cover!(!extend && id == lid + lrun as u64 && off < loff && len == llen);
+        kani::cover!(!extend && id - lid == (1u64 << 32) + lrun as u64 && off == loff && len == llen);
+        kani::cover!(extend && lid > (1u64 << 40));
+        std::mem::forget(entries);
+    }
+
+// @h id=H10.3 prop=C10,C16 tier=quick cap=600 mem=20 unwind=8 stubs="TileManager::calculate_hash -> injective packing (see H10.1)" bounds="two reader-backed tiles at ids 5 and 9 that START AT THE SAME offset of the backing stream with lengths 1 and 2 (overlapping prefix storage, as a foreign writer may lay out), backing bytes arbitrary"
+    /// contents that share a start offset but differ in length are distinct contents: both are written, each once
+    #[kani::proof]
+    #[kani::stub(crate::tile_manager::TileManager::calculate_hash, stub_hash)]
+    fn h10_3_same_offset_different_length() {
+        let d0: u8 = kani::any();
+        let d1: u8 = kani::any();
+        let data = [d0, d1, 0x33, 0x44];
+        let mut m = TM::new(Some(Cursor::new(&data[..])));
+        m.add_offset_tile(5, 0, 1).unwrap();
+        m.add_offset_tile(9, 0, 2).unwrap();
+        let r = m.finish();
+        assert!(r.is_ok());
+        let r = r.unwrap();
+        assert!(r.num_addressed_tiles == 2 && r.num_tile_content == 2 && r.num_tile_entries == 2);
+        assert!(r.data.len() == 3);
+        assert!(r.data[0] == d0 && r.data[1] == d0 && r.data[2] == d1);
+        let e = &r.directory[0];
+        let f = &r.directory[1];
+        assert!(e.tile_id == 5 && e.offset == 0 && e.length == 1 && e.run_length == 1);
+        assert!(f.tile_id == 9 && f.offset == 1 && f.length == 2 && f.run_length == 1);
+        kani::cover!(d0 == d1);
+        kani::cover!(d0 != d1);
+        std::mem::forget(r);
+    }
